@@ -30,7 +30,7 @@ ASSUMPTIONS = [
 
 
 def budget(tier):
-    return 8000 if tier == "quick" else 300000
+    return 8000 if tier == "quick" else 600000
 
 
 GFS = ["SB", "OA", "HD", "MO"]
